@@ -32,7 +32,7 @@ class Injector:
                 f = f.f_back
             inj.block += 1
             rec = [inj.block, owner, 0, owner.f_lineno if owner is not None else -1]
-            inj.census.append([owner.f_code.co_name if owner is not None else None, rec[3], 0])
+            inj.census.append([owner.f_code.co_name if owner is not None else None, rec[3], 0, []])
             inj.open.append(rec)
             old = sys.gettrace()
             if owner is not None:
@@ -50,6 +50,7 @@ class Injector:
                 if frame.f_back is rec[1]:
                     rec[2] += 1
                     inj.census[rec[0]][2] = rec[2]
+                    inj.census[rec[0]][3].append("%s:%d" % (frame.f_code.co_name, rec[1].f_lineno))      # callee and the calling line
                     if (rec[0], rec[2]) in inj.targets:
                         inj.fired.append([rec[0], rec[2], frame.f_code.co_name, rec[1].f_lineno])
                         raise exc("Timed out (injected)")
